@@ -352,6 +352,40 @@ pub fn shrink<F: FnMut(&[u32]) -> bool>(tape: &[u32], mut same: F, budget: usize
             }
             pos += 1;
         }
+        // 2b. shorten a generated list: lower a count and delete the entries of that many elements
+        // right behind it (k entries per element, k = 1..=8)
+        let mut pos = 0usize;
+        while pos < best.len() && !over(evals, &start) {
+            let v = best[pos];
+            if v > 0 && v <= 64 {
+                let mut done = false;
+                for d in [v, (v + 1) / 2, 1] {
+                    if done || d == 0 {
+                        continue;
+                    }
+                    for k in 1..=8usize {
+                        let del = d as usize * k;
+                        if pos + 1 + del > best.len() {
+                            break;
+                        }
+                        let mut cand = best.clone();
+                        cand[pos] = v - d;
+                        cand.drain(pos + 1..pos + 1 + del);
+                        evals += 1;
+                        if same(&cand) {
+                            best = cand;
+                            progress = true;
+                            done = true;
+                            break;
+                        }
+                        if over(evals, &start) {
+                            break;
+                        }
+                    }
+                }
+            }
+            pos += 1;
+        }
         // 3. truncate the tail (exhausted tape reads as 0)
         while !best.is_empty() && !over(evals, &start) {
             let mut cand = best.clone();
@@ -725,8 +759,8 @@ pub fn run_batch<P: Property>(p: &P, cfg: &BatchCfg) -> i32 {
                     _ => false,
                 }
             },
-            if cfg.tier == Tier::Quick { 4000 } else { 20000 },
-            if cfg.tier == Tier::Quick { 20.0 } else { 120.0 },
+            if cfg.tier == Tier::Quick { 8000 } else { 30000 },
+            if cfg.tier == Tier::Quick { 30.0 } else { 120.0 },
         );
         let (o, used) = run_tape(p, &small, &Opts { describe: true });
         set_quiet(false);
